@@ -2,6 +2,7 @@ package main
 
 import (
 	"encoding/json"
+	"fmt"
 	"os"
 	"sort"
 	"sync"
@@ -39,8 +40,30 @@ func stubConc(c *common, rng *hxlib.Rng, out *hxlib.Out) int {
 		for i := range vs {
 			vs[i] = 100 + i
 		}
-		form := rng.Intn(3)
+		form := rng.Intn(4)
+		if form == 3 {
+			// a two-result target: every element is a pair (k, "s<k>"), so a tuple mixed from two elements is visible;
+			// long sequences keep the cursor moving while the goroutines overlap
+			n = 200 + rng.Intn(1800)
+			per = 1 + (n*2)/g + rng.Intn(6)
+			vs = make([]interface{}, n)
+			for i := range vs {
+				vs[i] = []interface{}{100 + i, fmt.Sprint("s", 100+i)}
+			}
+		}
+		call := func() int { return fnzoo.F1(7) }
+		if form == 3 {
+			call = func() int {
+				r, s := fnzoo.F2R(7)
+				if s != fmt.Sprint("s", r) {
+					return 1 << 30 // not an element of the sequence
+				}
+				return r
+			}
+		}
 		switch form {
+		case 3:
+			b.Func(fnzoo.F2R).Returns(vs...)
 		case 0:
 			b.Func(fnzoo.F1).Returns(vs...)
 		case 1:
@@ -69,7 +92,7 @@ func stubConc(c *common, rng *hxlib.Rng, out *hxlib.Out) int {
 				}
 				for i := 0; i < per; i++ {
 					s := atomic.AddInt64(&ticket, 1)
-					v := fnzoo.F1(7)
+					v := call()
 					e := atomic.AddInt64(&ticket, 1)
 					calls[t] = append(calls[t], concCall{s, e, v - 100})
 				}
@@ -78,7 +101,7 @@ func stubConc(c *common, rng *hxlib.Rng, out *hxlib.Out) int {
 		atomic.StoreInt32(&start, 1)
 		wg.Wait()
 		// one more call after quiescence must see the last element iff the sequence was exhausted
-		final := fnzoo.F1(7) - 100
+		final := call() - 100
 		b.Reset()
 		var all []concCall
 		for _, cs := range calls {
